@@ -100,6 +100,20 @@ def trim_set(ctx, P):
     ctx.check(P + ':S16-1:trimmed-cr-kept-as-content', 'R-dom', 'a CR that trimming leaves at the end of a line is kept as content: the trimmed line is tested for a trailing CR before a bare LF line end is appended',
               bool(cr_test), function=b.path, sites=[site(b, i) for i in cr_test],
               missing=None if cr_test else '"a\\r\\t\\n" is trimmed to "a\\r\\n" and then read as a single CR LF break: same signed form as "a\\n"')
+    # the CR of a CR LF line ending belongs to the line ENDING: it has to be recognised (a pattern containing CR tested on the line)
+    # before the blanks are trimmed - trimming first leaves the blanks in front of the CR in the signed form (`"a \r\n"` must
+    # sign as `"a\r\n"`)
+    dom = b.dominators()
+    def has_cr(a):
+        if 'k' in a:
+            return a['k'].get('v') == 13 or '\\r' in str(a['k'].get('s', ''))
+        return has_origin(b.operand_origins(a), r'const:13:char$')
+    crs = [i for i, t in b.calls(r'(ends_with|strip_suffix|rfind|find|trim_end_matches|split_at|rsplit_once)$') if any(has_cr(a) for a in t['args'][1:])
+           and not has_origin(b.operand_origins(t['args'][0]), r'call:.*trim_end_matches$')]
+    before = [i for i in crs if all(i in dom.get(j, ()) and i != j for j, _ in tr)]
+    ctx.check(P + ':S16-1:line-ending-split-before-trim', 'R-seq', 'the CR LF line ending is recognised on the untrimmed line before trailing blanks are trimmed',
+              bool(tr) and bool(before), function=b.path, site=site(b, tr[0][0]) if tr else None,
+              missing=None if (tr and before) else 'no test for CR on the untrimmed line dominates the trimming: blanks in front of a CR LF line ending stay in the signed form')
     # unescape strips exactly the "- " prefix
     sp = b.calls(r'strip_prefix')
     ctx.check(P + ':S16-1:unescape-prefix', 'R-table', 'dash-unescaping strips a "- " prefix', bool(sp), function=b.path)
